@@ -14,7 +14,7 @@ RULE = ('operand pairs: left = generated program value (AnsiString or AnsiStr), 
 ASSUMPTIONS = ['plain str operands are ESC-free (a str containing escape sequences is parsed by design)',
                'display comparison of rejoined values only for well-formed settings and ESC-free text']
 
-CFG = gen.Cfg(esc=False, odd=0.12, invalid=True, incomplete=False, max_ops=4)
+CFG = gen.Cfg(esc=True, odd=0.12, invalid=True, incomplete=False, max_ops=4)
 
 
 def build(prog, o):
